@@ -117,7 +117,7 @@ def main():
             na.append({"property_id": pid, "reason": NOT_APPLICABLE.get(pid, NOT_YET)})
             continue
         c = dict(c)
-        c["text"] = c["text"] + ADDENDA.get(pid, "") + ADDENDA3.get(pid, "")
+        c["text"] = c["text"] + ADDENDA.get(pid, "") + ADDENDA3.get(pid, "") + ADDENDA4.get(pid, "") + ADDENDA5.get(pid, "")
         if pid in NOTE_FIXES:
             a, b = NOTE_FIXES[pid]
             c["note"] = c["note"].replace(a, b)
@@ -149,7 +149,7 @@ def main():
         }],
         "checks": checks,
         "not_applicable": na,
-        "notes": "All claims are at level 'other': structural necessary conditions decided statically on every path of the resolved program. Genuine defects found on the pinned tree (37) were repaired in /repo with 'fix:' commits; one more (three call sites, C17) is recorded as a known finding; all are listed in /verif/known_findings.json.",
+        "notes": "All claims are at level 'other': structural necessary conditions decided statically on every path of the resolved program. Genuine defects found on the pinned tree (44) were repaired in /repo with 'fix:' commits; one more (three call sites, C17) is recorded as a known finding; all are listed in /verif/known_findings.json.",
     }
     json.dump(m, open("/verif/MANIFEST.json", "w"), indent=1)
     print("MANIFEST.json:", len(checks), "checks,", len(na), "not applicable")
@@ -190,6 +190,44 @@ ADDENDA3 = {
  "C18": " Entries of plain maps kept in fields of shared objects are written only under a mutex of the object, during construction, or when confined to the goroutine serving the owner.",
  "C19": " The root pool a bundle's CA is appended to is created for that bundle, never shared through a package variable.",
  "C20": " --max-protocol-version is what the per-frame version gate compares with (gate decided for every version x maximum, shared with C13).",
+}
+
+# fourth-generation rules (DESIGN.md section 4, "Rules added after the fourth round")
+ADDENDA4 = {
+ "C01": " A connection lost during a re-prepare moves the original request on to the next host (counted as a hand-over).",
+ "C03": " The body of a received frame is a buffer of its own (never read into storage kept by the connection); the connection's codec and compression name change together, after validation (shared with C13).",
+ "C04": " Prepared metadata is stored latest-wins; the IF scan of a DML statement looks at every token up to the terminator (shared with C06).",
+ "C05": " The connection-loss handler consults idempotence and the plan for every error value (no early return for particular errors).",
+ "C06": " The identifier text is read while its token is still the current one; the terminator set of the IF scan contains end of input (decided by evaluating the predicate).",
+ "C09": " The keyspace of USE is stored as written (quotes kept); the table test is fed the identifier itself, never a transformed text; qualified names are read before the lexer advances (shared with C06).",
+ "C10": " The local data center and address are those of the control connection's own system.local row / configured address (provenance), never taken from a host list or a cache shared between connections.",
+ "C12": " The parser entry reports a SELECT statement for every text that starts with SELECT, parseable or not; a whole-struct re-default of the override is reported.",
+ "C14": " A control connection that fails after its socket was opened is closed on that path.",
+ "C15": " One publication of the host list per event.",
+ "C16": " A connection is heartbeated with the protocol version its handshake negotiated; the idle timer is re-armed only by a SUPPORTED answer of that iteration.",
+ "C17": " Every library decode of peer bytes (message codecs included) runs under a recover that returns an error; nothing that waits for the peer runs on the accept loop's goroutine; the term and cast parsers are depth-bounded.",
+ "C18": " No write under a read lock; no unlocked write to a field of a shared object that another goroutine reads.",
+}
+
+# fifth-generation rules (DESIGN.md section 4, "Rules added after the fifth round")
+_RT = " What a call returns reaches the variable the rest of the function reads (no shadowing `:=` whose outer namesake is read afterwards)."
+ADDENDA5 = {
+ "C01": _RT,
+ "C02": " The frame a request hands to a backend writer is storage of its own (never a view of a buffer kept in the connection object; shared with C03).",
+ "C03": " A frame body is never a view of a reusable buffer object (bytes.Buffer.Bytes() of a field).",
+ "C04": _RT,
+ "C05": _RT + " The idempotence verdict of a BATCH is decided by every child (shared with C04).",
+ "C06": _RT + " The next token a sub-parser returns is examined before it is overwritten; the nesting counter is written only by the depth guard and its counterpart and is never restored by a whole-struct copy of the lexer.",
+ "C07": " A statement that starts with USE is never reported as not handled (it would be forwarded to a backend connection shared with other clients).",
+ "C08": _RT + " The comparison with the re-execution limit decides: where the limit is reached the host walk is told to move on.",
+ "C09": _RT,
+ "C11": _RT + " No index or slice without an established bound in the partial codecs (panic inventory scoped to package codecs).",
+ "C12": " The re-encoded frame is storage of its own (shared with C03).",
+ "C13": " A locally built answer gets a header of its own: no field of a received frame's header is written (shared with C03).",
+ "C15": " A host list that was handed to listeners inside an event is never written through (no append to a re-slice of it).",
+ "C16": " An event is never dropped between the control connection's reader and the control loop (shared with C14); every step of a connection attempt that waits for the peer is bounded by the caller's context.",
+ "C17": " A pooled connection whose set-up fails is closed on every error path; a connection attempt cannot outlive its context (shared with C16).",
+ "C19": _RT + " No tls.Config of package astra enables session resumption (the custom verification runs only in full handshakes).",
 }
 
 NOTE_FIXES = {
